@@ -3,7 +3,7 @@
    Model: Frame/FrameModel.v (cc_init, finalize, prolog/epilog instruction lists), Frame/FrameMachine.v (abstract machine). *)
 From Coq Require Import ZArith List Bool.
 From Verif Require Import Frame.FrameModel Frame.FrameMachine Frame.FrameArith Frame.FrameLayout Frame.FrameMachineLemmas
-  Frame.FrameX86Proofs Frame.FrameA64Proofs Frame.FrameExamples Frame.SlotModel Frame.SlotProofs.
+  Frame.FrameX86Proofs Frame.FrameA64Proofs Frame.FrameExamples Frame.SlotModel Frame.SlotProofs Frame.SlotFull Frame.FrameRange Frame.FrameExec Frame.FrameExecProofs.
 Import ListNotations.
 Local Open Scope Z_scope.
 
@@ -114,18 +114,21 @@ Proof. exact a64_noncdecl_vec_refuted. Qed.
 Print Assumptions C07_roundtrip_a64_noncdecl_refuted.
 
 (* AArch64 round trip — for every frame of a cdecl-like convention (AAPCS64 / Apple / Windows ARM64: D registers preserved)
-   without dynamic alignment and with sp as the stack-argument base (the guards are exactly the recorded findings), every
+   without dynamic alignment and — on the pinned tree — with sp as the stack-argument base (the guards are exactly the recorded
+   findings; on a tree with fixes/C07-a64-sa-register.patch, `fi_sa_fix = true`, any SA register and FP-relative arguments are covered), every
    dirty mask, size, FP setting, entry state and confined body: stp/str pre-index, mov x29, sp, sub sp / add sp, ldp/ldr
    post-index restore sp, x29, x30 and every callee-saved X/D register and return to the caller's x30; sp is 16-byte aligned
    at every sp-based access (the machine is stuck otherwise); sp-relative stack arguments are exact; the emitters report no error *)
 Theorem C07_roundtrip_a64 : forall f, wf_in f -> fi_arch f = A64 ->
-  qget (cc_srsize (fi_cc f)) 1 = 8 -> fin_has_da f = false -> fi_sa_reg f = id_bad -> fo_stack_adj (finalize f) <= 16777215 ->
+  qget (cc_srsize (fi_cc f)) 1 = 8 -> fin_has_da f = false -> (fi_sa_reg f = id_bad \/ fi_sa_fix f = true) -> fo_stack_adj (finalize f) <= 16777215 ->
   forall s0,
   let o := finalize f in let sp0 := st_reg s0 0 31 in
   st_ret s0 = None -> sp0 mod 16 = 0 -> 0 <= st_reg s0 0 30 < 2 ^ 64 ->
   exists s1, run A64 (fst (prolog f o)) s0 = Some s1 /\ snd (prolog f o) = true /\
     st_reg s1 0 31 = a64_sp_body f sp0 /\ st_ret s1 = None /\
     a64_sp_body f sp0 mod fo_final_align o = 0 /\ a64_sp_body f sp0 + fo_sa_from_sp o = sp0 /\
+    (fi_sa_fix f = true -> fi_has_fp f = true -> st_reg s1 0 29 + fo_sa_from_sa o = sp0) /\
+    (fin_sa f <> 31 -> st_reg s1 0 (fin_sa f) + fo_sa_from_sa o = sp0) /\
     forall s2, a64_body_ok f s0 s1 s2 ->
       exists s3, run A64 (fst (epilog f o)) s2 = Some s3 /\ snd (epilog f o) = true /\
         st_ret s3 = Some (st_reg s0 0 30) /\ st_reg s3 0 31 = sp0 /\
@@ -148,10 +151,55 @@ Theorem C07_gap_branch_dead : forall slots, Forall slot_ok slots ->
 Proof. exact gap_branch_dead. Qed.
 Print Assumptions C07_gap_branch_dead.
 
-(* partial: the weight sort (STEP 1/2) is taken from the implementation (the processing order is an input of the model) and
-   stack_size = align_up(final offset) is checked by the run-time monitor only.  Every non-argument slot gets an aligned
-   range starting at or after the end of the previous one: pairwise disjoint, ordered, non-negative *)
-Theorem C07_slots_disjoint_partial : forall slots, Forall slot_ok slots ->
-  ranges_ok slots (fst (alloc_offsets slots)) 0 /\ 0 <= snd (alloc_offsets slots).
-Proof. exact slots_disjoint. Qed.
-Print Assumptions C07_slots_disjoint_partial.
+(* FULL (round 2): for EVERY processing order the sort of STEP 2 may produce (any list of slot indices), the slots get a good
+   placement: every non-argument slot non-negative, aligned and below stack_size, pairwise disjoint; stack_size is a multiple of
+   the allocator alignment; the gap machinery is never used *)
+Theorem C07_slots_disjoint : forall (slots : list rslot) (order : list nat) (align : Z),
+  Forall (fun s => 0 <= rs_size s /\ pow2 (rs_align s)) slots -> 0 < align ->
+  let processed := map (fun i => to_sslot (nth i slots (mk_rslot 0 1 false false 0))) order in
+  placed_spec (fst (alloc_frame processed align)) (snd (alloc_frame processed align)) /\
+  snd (alloc_frame processed align) mod align = 0 /\
+  as_gap_used (alloc_all processed) = false.
+Proof. exact slots_full. Qed.
+Print Assumptions C07_slots_disjoint.
+
+(* the checker that judges the IMPLEMENTATION's placement at run time is sound *)
+Theorem C07_placed_ok_sound : forall pl stack_size, placed_ok pl stack_size = true -> placed_spec pl stack_size.
+Proof. exact placed_ok_sound. Qed.
+Print Assumptions C07_placed_ok_sound.
+
+(* the conventions the Compiler hands to finalize (natural alignment raised to the target's stack alignment) are well formed too,
+   so every theorem above covers the frames of compiled functions *)
+Theorem C07_compiler_conventions_wf : forall a plat ccid cc, cc_init a plat ccid = Some cc -> wf_cc a (compiler_cc a plat cc).
+Proof. exact compiler_cc_init_wf. Qed.
+Print Assumptions C07_compiler_conventions_wf.
+
+(* round 2: the code computes with uint32_t, the model with integers: for call+local sizes up to 2^31 - 2^16, alignments up to 128
+   and an argument area below 64 KiB nothing wraps (every quantity stays below 2^31), and the immediates of the x86 prolog/epilog
+   (sub/add sp, and sp, save offsets <= stack adjustment, lea displacement <= push/pop size, ret imm16) fit their fields *)
+Theorem C07_no_wrap : forall f, wf_in f -> in_range f ->
+  let o := finalize f in
+  0 <= fo_local_off o /\ fo_local_off o <= fo_extra_off o /\ fo_extra_off o + fo_extra_size o <= fo_stack_adj o /\
+  fo_stack_adj o < 2 ^ 31 - 2 ^ 15 /\ 0 <= fo_final_size o < 2 ^ 31 - 2 ^ 15 /\
+  fo_sa_from_sp o < 2 ^ 31 /\ 0 <= fo_sa_from_sa o < 2 ^ 31 /\ fo_da_off o < 2 ^ 31 /\
+  0 <= fo_push_pop_size o <= 2112 /\ 0 <= fo_callee_cleanup o < 2 ^ 16 /\ - 2 ^ 31 <= - fo_final_align o.
+Proof. exact no_wrap. Qed.
+Print Assumptions C07_no_wrap.
+
+Theorem C07_a64_fixed_variant_satisfiable :
+  exists f, wf_in f /\ fi_arch f = A64 /\ qget (cc_srsize (fi_cc f)) 1 = 8 /\ fin_has_da f = false /\
+            (fi_sa_reg f = id_bad \/ fi_sa_fix f = true) /\ fo_stack_adj (finalize f) <= 16777215 /\ fin_sa f <> 31 /\ fi_has_fp f = true.
+Proof. exact ex_a64_sa_fixed_sat. Qed.
+Print Assumptions C07_a64_fixed_variant_satisfiable.
+
+(* round 2: the scenario the check executes on the extracted machine for every frame (FrameExec.exec_frame: entry state, prolog,
+   most hostile confined body, epilog, judgement) is an instance of C07_roundtrip_x86: on the MODEL's own lists its verdict is 0,
+   so a non-zero verdict on the implementation's list (which must equal the model's) can only come from the implementation *)
+Theorem C07_exec_scenario_ok_x86 : forall f, wf_in f -> is_x86_family (fi_arch f) = true -> x86_regs_exist f ->
+  forall sp0 ra,
+  (sp0 + reg_size (fi_arch f)) mod cc_natural (fi_cc f) = 0 -> fin_pp f <= sp0 < 2 ^ (8 * reg_size (fi_arch f)) ->
+  fst (exec_frame (fi_arch f) (x86_prolog f (finalize f)) (x86_epilog f (finalize f)) sp0 ra (fo_dirty (finalize f))
+                  (cc_preserved (fi_cc f)) (cc_srsize (fi_cc f)) (fi_has_fp f) (fi_call_size f) (fo_local_off (finalize f))
+                  (fi_local_size f) (fo_callee_cleanup (finalize f))) = 0.
+Proof. exact exec_frame_ok_x86. Qed.
+Print Assumptions C07_exec_scenario_ok_x86.
